@@ -1,6 +1,7 @@
 """Shared pieces of the reader checks C01 / C05 / C08: script generators for the read-core model
 (correspondence with harness/readCore.c), archive corpus (suite reference archives + output of the
 real writers via harness/mkArchive.c), and helpers around harness/readAll.c."""
+import re
 import os, glob, binascii, hashlib
 import vlib
 from vlib import vfmt, vparse
@@ -218,6 +219,11 @@ def uudecode(path):
                     return None
     return bytes(out) if started else None
 
+# always part of a sampled corpus: decoders with state carried from one decode call to the next (branch converters,
+# solid blocks, old-format sparse maps with extension blocks) - what they deliver must not depend on the call pattern
+MUST_REFS = re.compile(r"test_read_format_7zip_(bcj|bcj2|deflate|lzma\d?|zstd|bzip2|ppmd)_?\w*\.7z$|test_read_format_gtar_sparse_1_1[37]|"
+                       r"test_read_format_rar_(ppmd_lzss|multi_lzss|compress_best)|test_read_format_cab_[123]|test_read_format_lha_lh[067]")
+
 def reference_archives(max_size, limit=None):
     """(name, bytes) of the suite's reference archives up to max_size, deterministic order"""
     res = []
@@ -229,9 +235,12 @@ def reference_archives(max_size, limit=None):
             continue
         res.append((os.path.basename(p)[:-3], b))
     if limit:
-        # spread over the alphabet (= over formats)
+        # spread over the alphabet (= over formats), plus the archives that must always be there
         step = max(1, len(res) // limit)
-        res = res[::step][:limit]
+        keep = res[::step][:limit]
+        names = set(n for n, _ in keep)
+        keep += [(n, b) for n, b in res if MUST_REFS.search(n) and n not in names and len(b) <= 120000]
+        res = keep
     return res
 
 STD_ENTRIES = [
